@@ -4,6 +4,7 @@ import (
 	"fmt"
 	"go/token"
 	"go/types"
+	"strconv"
 	"strings"
 
 	"golang.org/x/tools/go/ssa"
@@ -651,6 +652,40 @@ func c08Refusals(c *Ctx, a *sketchAnchors) {
 				if p.RetNil(0) != -1 {
 					badC = "mapping mismatch does not return an error: " + describeRet(p)
 				}
+			}
+		}
+	}
+	// the guard speaks of the mapping the receiver has NOW: a stream may carry several mapping blocks (concatenated
+	// encodings), and each is compared with the mapping as it stands after the previous one was adopted — not with a
+	// copy taken before decoding started
+	for _, p := range paths {
+		for _, cd := range p.Conds {
+			var mt *Term
+			if x, _, k := nilTest(cd.Term); k && isMapField(x) {
+				mt = x
+			}
+			if isMethodCall(cd.Term, "Equals") && len(cd.Term.Args) == 2 {
+				for _, x := range cd.Term.Args {
+					if isMapField(x) {
+						mt = x
+					}
+				}
+			}
+			if mt == nil {
+				continue
+			}
+			have := 0
+			if mt.Op == "ver" {
+				have, _ = strconv.Atoi(mt.Sym)
+			}
+			want := 0
+			for _, e := range p.Effects {
+				if e.Kind == "store" && e.Seq < cd.Seq && isMapField(e.Addr) {
+					want++
+				}
+			}
+			if have != want {
+				badC = firstNonEmpty(badC, fmt.Sprintf("a mapping test reads the receiver's mapping as it was %d assignment(s) ago: %s", want-have, shorten(cd.Term.Key(), 100)))
 			}
 		}
 	}
